@@ -534,7 +534,11 @@ def _apply_group_method_single_chunk(
 
 @nb.njit(parallel=True, cache=True)
 def reduce_array_pair(
-    x: np.ndarray, y: np.ndarray, reducer: Callable, counts: Optional[np.ndarray] = None
+    x: np.ndarray,
+    y: np.ndarray,
+    reducer: Callable,
+    counts: Optional[np.ndarray] = None,
+    y_counts: Optional[np.ndarray] = None,
 ):
     """
     Apply a reduction function element-wise to pairs of arrays using parallel processing.
@@ -580,6 +584,10 @@ def reduce_array_pair(
     """
     out = x.copy()
     for i in nb.prange(len(x)):
+        if y_counts is not None and y_counts[i] == 0:
+            # y holds an empty partial for this group: its accumulator must be ignored.
+            # (its initial value is only recognisable as null for float and int64 data)
+            continue
         if counts is None:
             count = 1
         else:
@@ -731,6 +739,7 @@ def combine_chunk_results_for_factorized_key(
             chunk,
             getattr(ScalarFuncs, reduce_func_name),
             counts=combined_count if counts_tracked else None,
+            y_counts=count if counts_tracked else None,
         )
         combined_count = combined_count + count
 
